@@ -59,7 +59,7 @@ impl<'a> Knobs<'a> {
 /// A random generator that can be serialised with its state (the workspace builds `rand_xoshiro`
 /// without its serde feature, so linfa's default `Xoshiro256Plus` cannot travel through serde; the
 /// parameter types are generic over the generator). SplitMix64.
-#[derive(Debug, Clone, PartialEq, Eq, Serialize, Deserialize)]
+#[derive(Debug, Clone, Default, PartialEq, Eq, Serialize, Deserialize)]
 pub struct SerRng {
     pub state: u64,
 }
@@ -120,7 +120,7 @@ pub fn assumptions() -> Vec<String> {
         "JSON is applied only to values whose floats are all finite (NaN / infinity have no JSON form); bincode and MessagePack are applied always".into(),
         "equality of learned quantities and of predictions is bit equality (same arithmetic on both sides); no float tolerance is used, except: \
          naive-Bayes predictions may differ between original and restored model on rows where the two answers' joint log-likelihoods, recomputed \
-         from the serialised class statistics, agree within 1e-9 (f64) / 1e-4 (f32) relative — the arg-max follows HashMap order on exact ties (C20's subject)".into(),
+         from the serialised class statistics, agree within 1e-9 (f64) / 1e-4 (f32) relative or are both -inf, or where some class has a NaN likelihood — the arg-max follows HashMap order there (C20's subject)".into(),
         "`back == orig` is required only when `orig == orig` (a value holding NaN is not equal to itself)".into(),
         "byte-identical re-serialisation is required except for HashMap/HashSet-backed values (naive Bayes, count / tf-idf vectorisers, their parameter sets), \
          which are compared through canonical JSON (object keys ordered, the `stopwords` set sorted)".into(),
